@@ -36,6 +36,8 @@ Diff(e, r) ==
   \cup (IF e.rt.idleAt # r.rt.idleAt THEN {"rt.idleAt"} ELSE {})
   \cup (IF e.gen # {<<x.job, x.h>> : x \in Rng(r.gen)} THEN {"generated-config"} ELSE {})
   \cup (IF e.loaded # {<<x.job, x.h>> : x \in Rng(r.loaded)} THEN {"loaded-config"} ELSE {})
+  \* C11 on the real state alone: the generated file lists exactly the targets that are assigned (jobs the configuration knows)
+  \cup (IF {<<x.job, x.h>> : x \in Rng(r.gen)} # GenOf(r.assign) THEN {"generated-config-is-not-the-assignment"} ELSE {})
 
 \* /samples/ after a successful scrape of an assigned target: the per-metric counts add up to
 \* the totals of the payload (C14)
